@@ -74,11 +74,130 @@ def gen_start(rng, nmax):
     return rng.randint(-nmax - 3, nmax + 3)
 
 
-def gen_op(rng, addrs, nmax, p_bad):
+EULER_SEQS = [s for n in (1, 2, 3) for s in map("".join, __import__("itertools").product("xyz", repeat=n))
+              if all(a != b for a, b in zip(s, s[1:]))]
+EULER_SEQS += [s.upper() for s in EULER_SEQS]
+BAD_SEQS = ["xx", "xYz", "", "xyzx", "a", "zyy", "Xx"]
+ENTRY_KINDS = ["rotvec", "euler", "matrix", "mrp", "quat"]
+
+
+def gen_rotfrom(rng, addr, nmax):
+    """one of the five thin `rotate_from_*` wrappers with RAW arguments (the model converts them itself): exact data — rotation
+    vectors / quaternions / MRPs / matrices of octahedral rotations, Euler angles that are multiples of 90 degrees for every valid
+    sequence of 1..3 axes (extrinsic and intrinsic), scalar input (one parameter set) or vector input (n >= 1 sets); a share of
+    arguments scipy refuses (bad sequence, wrong angle shape incl. the documented shape (n,) for a one-letter sequence, reflection
+    matrix, zero quaternion)."""
+    kind = rng.choice(ENTRY_KINDS)
+    single = rng.random() < 0.45
+    n = 1 if single else rng.choice([1, 1, 2, 2, 3, 4])
+    op = {"op": "rotfrom", "addr": addr, "kind": kind, "single": single, "anchor": gen_anchor(rng), "start": gen_start(rng, nmax),
+          "deg": rng.random() < 0.6}
+    if kind == "euler":
+        bad = rng.random() < 0.14
+        seq = rng.choice(BAD_SEQS) if bad and rng.random() < 0.4 else rng.choice(EULER_SEQS)
+        w = len(seq)
+        ang = lambda: float(90 * rng.randint(-4, 4)) if op["deg"] else float(rng.randint(-4, 4) * (np.pi / 2))
+        if single:
+            if w == 1 and rng.random() < 0.5:
+                op["eshape"], op["data"] = "num", ang()
+            else:
+                op["eshape"], op["data"] = "arr1", [ang() for _ in range(w)]
+        else:
+            op["eshape"], op["data"] = "arr2", [[ang() for _ in range(w)] for _ in range(n)]
+        if bad and seq not in BAD_SEQS:
+            c = rng.randrange(3)
+            if c == 0:  # 1-D array whose length is not the number of axes (for w = 1: the docstring's "shape (n,)")
+                m = rng.choice([k for k in (1, 2, 3, 4) if k != w])
+                op["eshape"], op["data"] = "arr1", [ang() for _ in range(m)]
+            elif c == 1 and w > 1:
+                op["eshape"], op["data"] = "num", ang()
+            else:
+                m = rng.choice([k for k in (1, 2, 3, 4) if k != w])
+                op["eshape"], op["data"] = "arr2", [[ang() for _ in range(m)] for _ in range(n)]
+        op["seq"] = seq
+        return op
+    idx = [rng.randrange(24) for _ in range(n)]
+    rot = rot_from([OCTA[i] for i in idx])
+    if kind == "rotvec":
+        data = rot.as_rotvec(degrees=op["deg"])
+    elif kind == "mrp":
+        data = rot.as_mrp()
+    elif kind == "quat":
+        data = rot.as_quat() * rng.choice([1.0, 1.0, -1.0, 2.5])
+        if rng.random() < 0.06:
+            data[rng.randrange(n)] = 0.0
+    else:
+        data = rot.as_matrix()
+        if rng.random() < 0.06:
+            data[rng.randrange(n)] = rng.choice([np.diag([1.0, 1.0, -1.0]), np.zeros((3, 3)), -np.eye(3)])
+    data = np.asarray(data, dtype=float)
+    op["data"] = (data[0] if single else data).tolist()
+    return op
+
+
+def gen_subtree(rng, depth=0):
+    """a fresh object (Sensor / Dipole) or collection with explicit paths, to be added as a child"""
+    n = rng.choice([1, 1, 2, 3])
+    node = {"pos": [rvec(rng) for _ in range(n)], "ori": [rng.randrange(24) for _ in range(n)], "kids": [],
+            "leaf": rng.choice(["Sensor", "Dipole"])}
+    if depth < 2 and rng.random() < 0.35:
+        node["leaf"] = None
+        node["kids"] = [gen_subtree(rng, depth + 1) for _ in range(rng.choice([1, 1, 2]))]
+    return node
+
+
+def sk_from_shape(shape):
+    it = iter(shape)
+
+    def rec():
+        k = next(it)
+        return {"coll": k > 0, "kids": [rec() for _ in range(k)]}
+
+    return rec()
+
+
+def sk_from_subtree(node):
+    return {"coll": node["leaf"] is None, "kids": [sk_from_subtree(c) for c in node["kids"]]}
+
+
+def sk_addresses(sk, pred=lambda n: True):
+    out = []
+
+    def rec(n, addr):
+        if pred(n):
+            out.append(addr)
+        for j, c in enumerate(n["kids"]):
+            rec(c, addr + [j])
+
+    rec(sk, [])
+    return out
+
+
+def sk_at(sk, addr):
+    for i in addr:
+        sk = sk["kids"][i]
+    return sk
+
+
+def gen_op(rng, addrs, nmax, p_bad, sk=None, root_only=False):
     addr = rng.choice(addrs)
     r = rng.random()
     if r < p_bad:
         return {"op": "bad", "addr": addr, "what": rng.choice(BAD_KINDS)}
+    if sk is not None and rng.random() < 0.07:
+        if rng.random() < 0.55:
+            cands = [[]] if root_only else sk_addresses(sk, lambda n: n["coll"])
+            cands = [a for a in cands if sk_at(sk, a)["coll"]]
+            if cands:
+                return {"op": "add", "addr": rng.choice(cands), "sub": gen_subtree(rng)}
+        else:
+            cands = [[]] if root_only else sk_addresses(sk, lambda n: n["coll"] and n["kids"])
+            cands = [a for a in cands if sk_at(sk, a)["coll"] and sk_at(sk, a)["kids"]]
+            if cands:
+                a = rng.choice(cands)
+                return {"op": "remove", "addr": a, "j": rng.randrange(len(sk_at(sk, a)["kids"]))}
+    if rng.random() < 0.17:
+        return gen_rotfrom(rng, addr, nmax)
     k = rng.random()
     if k < 0.30:
         if rng.random() < 0.45:
@@ -163,6 +282,7 @@ def angax_value(op, k):
 
 
 BAD_KINDS = [
+    "remove-nonchild", "add-self", "add-twice",
     "move-str", "move-shape2", "move-n2", "move-none", "move-4d", "move-ragged", "start-float", "start-str",
     "start-none", "rot-list", "rot-start-float", "anchor-shape", "anchor-str", "anchor-1", "setpos-str", "setpos-shape",
     "setpos-empty", "setori-list", "setori-empty", "angax-axis0", "angax-axis-str", "angax-degrees", "parent-int",
@@ -179,9 +299,18 @@ def identity_index():
 ID = identity_index()
 
 
+def sk_apply(sk, op):
+    """keep the generator's skeleton of the tree in step with add / remove"""
+    if op["op"] == "add":
+        sk_at(sk, op["addr"])["kids"].append(sk_from_subtree(op["sub"]))
+    elif op["op"] == "remove":
+        del sk_at(sk, op["addr"])["kids"][op["j"]]
+
+
 def gen_history(rng, n_ops, max_nodes=6, p_bad=0.08, equal_lengths=False):
     shape = gen_shape(rng, max_nodes)
     addrs = addresses(shape)
+    sk = sk_from_shape(shape)
     ops = []
     if equal_lengths:
         # C10 regime: only operate on collections after giving every node the same path length
@@ -191,10 +320,19 @@ def gen_history(rng, n_ops, max_nodes=6, p_bad=0.08, equal_lengths=False):
             ops.append({"op": "setori", "addr": a, "val": [rng.randrange(24) for _ in range(n)], "single": False, "none": False})
         # root-only afterwards keeps the equal-length hypothesis for scalar ops; vector ops change all alike
         for _ in range(n_ops):
-            ops.append(gen_op(rng, [[]], 4, p_bad))
+            op = gen_op(rng, [[]], 4, p_bad, sk=sk, root_only=True)
+            ops.append(op)
+            sk_apply(sk, op)
+            if op["op"] == "add":
+                # the new child has its own path length: assigning the collection's position path re-bases every descendant to
+                # the collection's new length, which restores the common path length (C10 regime)
+                m = rng.choice([1, 2, 3, 4])
+                ops.append({"op": "setpos", "addr": [], "val": [rvec(rng) for _ in range(m)], "flat": False})
     else:
         for _ in range(n_ops):
-            ops.append(gen_op(rng, addrs, 4, p_bad))
+            op = gen_op(rng, sk_addresses(sk), 4, p_bad, sk=sk)
+            ops.append(op)
+            sk_apply(sk, op)
     return {"shape": shape, "ops": ops}
 
 
@@ -217,6 +355,34 @@ def enc_pathin_rot(p):
     if p[0] == "s":
         return "s " + fmt_mat(OCTA[p[1]])
     return f"v {len(p[1])} " + " ".join(fmt_mat(OCTA[i]) for i in p[1])
+
+
+def enc_bits_list(xs):
+    return " ".join(_bits(x) for x in np.asarray(xs, dtype=float).reshape(-1))
+
+
+def enc_entry(op):
+    k = op["kind"]
+    if k == "euler":
+        d = op["data"]
+        if op["eshape"] == "num":
+            e = "num " + _bits(d)
+        elif op["eshape"] == "arr1":
+            e = f"arr1 {len(d)} " + enc_bits_list(d)
+        else:
+            e = f"arr2 {len(d)} {len(d[0]) if d else 0} " + enc_bits_list(d)
+        return f"euler {e} {op['seq'] if op['seq'] else 'EMPTY'} {int(op['deg'])}"
+    d = op["data"]
+    body = ("s " + enc_bits_list(d)) if op["single"] else (f"v {len(d)} " + enc_bits_list(d))
+    if k == "rotvec":
+        return f"rotvec {body} {int(op['deg'])}"
+    return f"{k} {body}"
+
+
+def enc_subtree(node):
+    me = (f"{len(node['kids'])} P {len(node['pos'])} " + " ".join(fmt_vec(v) for v in node["pos"])
+          + f" O {len(node['ori'])} " + " ".join(fmt_mat(OCTA[i]) for i in node["ori"]))
+    return " ".join([me] + [enc_subtree(c) for c in node["kids"]])
 
 
 def model_lines(h):
@@ -250,6 +416,14 @@ def model_lines(h):
             lines.append(f"path setori {a} {len(vals)} " + " ".join(fmt_mat(OCTA[i]) for i in vals))
         elif k == "reset":
             lines.append(f"path reset {a}")
+        elif k == "rotfrom":
+            an = op["anchor"]
+            ea = "n" if an is None else ("s 0 0 0" if an == 0 else enc_pathin_vec(an))
+            lines.append(f"path rotfrom {a} {enc_entry(op)} {ea} {enc_start(op['start'])}".replace("  ", " "))
+        elif k == "add":
+            lines.append(f"path add {a} {enc_subtree(op['sub'])}")
+        elif k == "remove":
+            lines.append(f"path remove {a} {op['j']}")
         elif k == "bad":
             lines.append("path bad")
         else:
@@ -273,6 +447,35 @@ def build_real(shape):
 
     root = rec()
     return root
+
+
+def build_sub(node):
+    import magpylib as magpy
+
+    kw = {"position": np.array(node["pos"], dtype=float), "orientation": rot_from([OCTA[i] for i in node["ori"]])}
+    if node["leaf"] == "Sensor":
+        return magpy.Sensor(**kw)
+    if node["leaf"] == "Dipole":
+        return magpy.misc.Dipole(moment=(1, 2, 3), **kw)
+    return magpy.Collection(*[build_sub(c) for c in node["kids"]], **kw)
+
+
+def call_rotfrom(obj, op):
+    an = op["anchor"]
+    kw = {"anchor": None if an is None else (0 if an == 0 else an[1]), "start": "auto" if op["start"] is None else op["start"]}
+    k = op["kind"]
+    if k == "euler":
+        obj.rotate_from_euler(op["data"], op["seq"], degrees=op["deg"], **kw)
+    elif k == "rotvec":
+        obj.rotate_from_rotvec(np.array(op["data"], dtype=float), degrees=op["deg"], **kw)
+    elif k == "matrix":
+        obj.rotate_from_matrix(np.array(op["data"], dtype=float), **kw)
+    elif k == "mrp":
+        obj.rotate_from_mrp(np.array(op["data"], dtype=float), **kw)
+    elif k == "quat":
+        obj.rotate_from_quat(np.array(op["data"], dtype=float), **kw)
+    else:
+        raise ValueError(k)
 
 
 def node_at(root, addr):
@@ -405,6 +608,25 @@ def call_bad(obj, what):
         obj.rotate_from_angax(90, "z", degrees=1)
     elif what == "parent-int":
         obj.parent = 3
+    elif what == "remove-nonchild":
+        import magpylib as magpy
+
+        if not isinstance(obj, magpy.Collection):
+            obj.move("abc")
+        obj.remove(magpy.Sensor())
+    elif what == "add-self":
+        import magpylib as magpy
+
+        if not isinstance(obj, magpy.Collection):
+            obj.move("abc")
+        obj.add(obj)
+    elif what == "add-twice":
+        import magpylib as magpy
+
+        if not isinstance(obj, magpy.Collection):
+            obj.move("abc")
+        x = magpy.Sensor()
+        obj.add(x, x)
     else:
         raise ValueError(what)
 
@@ -443,6 +665,12 @@ def real_lines(h):
                     obj.orientation = rot_from([OCTA[i] for i in op["val"]])
             elif k == "reset":
                 obj.reset_path()
+            elif k == "rotfrom":
+                call_rotfrom(obj, op)
+            elif k == "add":
+                obj.add(build_sub(op["sub"]))
+            elif k == "remove":
+                obj.remove(obj.children[op["j"]])
             elif k == "bad":
                 call_bad(obj, op["what"])
             tag = "ok"
@@ -489,7 +717,7 @@ def shrink(h):
 def run_stream(ctx, n_hist, n_ops, equal_lengths_share=0.3, corpus=None):
     """returns stats dict; appends to ctx.broken on disagreement"""
     stats = {"histories": 0, "ops": 0, "op_kinds": {}, "err_kinds": {}, "forms": {}, "max_path_len": 0,
-             "tree_sizes": {}, "disagreements": 0, "distinct_states": 0, "angax": {}}
+             "tree_sizes": {}, "disagreements": 0, "distinct_states": 0, "angax": {}, "entry_points": {}}
     seen_states = set()
     samples = []
     hists = list(corpus or [])
@@ -513,6 +741,11 @@ def run_stream(ctx, n_hist, n_ops, equal_lengths_share=0.3, corpus=None):
             stats["op_kinds"][op["op"]] = stats["op_kinds"].get(op["op"], 0) + 1
             if op["op"] == "rot":
                 stats["forms"][op.get("form")] = stats["forms"].get(op.get("form"), 0) + 1
+            if op["op"] == "rotfrom":
+                key = op["kind"] + (":scalar" if op["single"] else ":vector")
+                if op["kind"] == "euler":
+                    key = f"euler:{op['eshape']}:w{len(op['seq'])}" + (":intrinsic" if op["seq"][:1].isupper() else ":extrinsic")
+                stats["entry_points"][key] = stats["entry_points"].get(key, 0) + 1
             if op["op"] == "angax":
                 ax = op["axis"]
                 key = ("axis-str" if ax in ("x", "y", "z") else "axis-bad-str") if isinstance(ax, str) else ("axis-zero" if not any(ax) else "axis-vec")
@@ -541,4 +774,6 @@ def run_stream(ctx, n_hist, n_ops, equal_lengths_share=0.3, corpus=None):
             samples.append({"shape": h["shape"], "ops": h["ops"][-4:], "final_state": rl[-1][:400]})
     stats["distinct_states"] = len(seen_states)
     stats["samples"] = samples
+    print("path stream op distribution:", json.dumps({"ops": stats["op_kinds"], "rotate forms": stats["forms"],
+                                                       "entry points": stats["entry_points"], "rejected": stats["err_kinds"]}, sort_keys=True))
     return stats
